@@ -75,6 +75,7 @@ type Report struct {
 	PoolCross   int64    `json:"pool_cross_task"`
 	PoolDropped int64    `json:"pool_dropped"`
 	PoolDirty   int64    `json:"pool_dirty"`
+	Stalls      int64    `json:"stalls,omitempty"`
 	MapRanges   int64    `json:"map_ranges"`
 	ClockReads  int64    `json:"clock_reads"`
 	ClockSpanNs int64    `json:"clock_span_ns"`
@@ -120,6 +121,13 @@ type kernel struct {
 	deadlockOp bool
 	blocks     int64
 	schedHash  uint64
+
+	// a task held back by the fault injector (StallCurrentAfterUnlocks): not eligible while another task can run
+	stalled   [MaxTasks]bool
+	nstalled  int
+	stallTask int
+	stallLeft int
+	stalls    int64
 
 	cfg Config
 }
@@ -239,6 +247,7 @@ func End() Report {
 		Deadlock:   k.deadlock,
 		LockBlocks: k.blocks,
 		SchedHash:  k.schedHash,
+		Stalls:     k.stalls,
 	}
 	r.Switches = append(r.Switches, k.sw[:k.nsw]...)
 	endPools(&r)
@@ -340,9 +349,19 @@ func (kk *kernel) choose(forced bool) int {
 	n := kk.ntasks
 	cnt := 0
 	for i := 0; i < n; i++ {
-		if kk.status[i] == tsRunnable {
+		if kk.status[i] == tsRunnable && !kk.stalled[i] {
 			cnt++
 		}
+	}
+	if cnt == 0 && kk.nstalled > 0 {
+		// nobody else can run: the stall is over
+		for i := 0; i < n; i++ {
+			kk.stalled[i] = false
+			if kk.status[i] == tsRunnable {
+				cnt++
+			}
+		}
+		kk.nstalled = 0
 	}
 	if cnt == 0 {
 		return -1
@@ -352,7 +371,7 @@ func (kk *kernel) choose(forced bool) int {
 		if kk.expPos < len(kk.explicit) && kk.explicit[kk.expPos].Step == kk.step {
 			to := kk.explicit[kk.expPos].To
 			kk.expPos++
-			if to >= 0 && to < n && kk.status[to] == tsRunnable {
+			if to >= 0 && to < n && kk.status[to] == tsRunnable && !kk.stalled[to] {
 				return to
 			}
 		}
@@ -360,7 +379,7 @@ func (kk *kernel) choose(forced bool) int {
 			return kk.cur
 		}
 		for i := 0; i < n; i++ {
-			if kk.status[i] == tsRunnable {
+			if kk.status[i] == tsRunnable && !kk.stalled[i] {
 				return i
 			}
 		}
@@ -370,7 +389,7 @@ func (kk *kernel) choose(forced bool) int {
 		}
 		j := int(kk.rng.below(uint64(cnt)))
 		for i := 0; i < n; i++ {
-			if kk.status[i] == tsRunnable {
+			if kk.status[i] == tsRunnable && !kk.stalled[i] {
 				if j == 0 {
 					return i
 				}
@@ -387,13 +406,27 @@ func (kk *kernel) choose(forced bool) int {
 		}
 		best := -1
 		for i := 0; i < n; i++ {
-			if kk.status[i] == tsRunnable && (best < 0 || kk.prio[i] > kk.prio[best]) {
+			if kk.status[i] == tsRunnable && !kk.stalled[i] && (best < 0 || kk.prio[i] > kk.prio[best]) {
 				best = i
 			}
 		}
 		return best
 	}
 	return kk.cur
+}
+
+// StallCurrentAfterUnlocks is fault injection on the schedule ("slow node"): the task that is running now is
+// held back right after the n-th lock release it performs from here on, and stays ineligible until no other
+// task can run. The environment calls it when a fault it injects (a file edited underneath) was triggered by
+// this task's own access, so that the task sits on what it validated under the lock while the others move on.
+//
+//go:norace
+func StallCurrentAfterUnlocks(n int) {
+	if !k.on || k.ntasks <= 1 || n <= 0 {
+		return
+	}
+	k.stallTask = k.cur
+	k.stallLeft = n
 }
 
 // Yield is a scheduling point. site identifies the source position (see the site table).
@@ -411,7 +444,18 @@ func Yield(site int) {
 	if k.ntasks <= 1 {
 		return
 	}
-	next := k.choose(false)
+	forced := false
+	if k.stallLeft > 0 && k.cur == k.stallTask && (site == -2 || site == -4 || site == -6) {
+		// the yield right after a lock release of the task the fault injector singled out
+		k.stallLeft--
+		if k.stallLeft == 0 && !k.stalled[k.cur] {
+			k.stalled[k.cur] = true
+			k.nstalled++
+			k.stalls++
+			forced = true
+		}
+	}
+	next := k.choose(forced)
 	if next != k.cur && next >= 0 {
 		k.record(next)
 		switchTo(next)
